@@ -142,7 +142,7 @@ Proof.
     try (apply ink_sod; apply ink_refl).
   - apply lcp_apply_sod. apply fsm_input_ok.
   - destruct x; try (apply ink_sod; apply ink_refl).
-    + destruct (in_net (ph (ms m))); apply ink_sod; [apply phs_ink, phs_emit|apply ink_refl].
+    + destruct (fs (lcp (ms m))); apply ink_sod; try apply ink_refl; apply phs_ink, phs_emit.
     + apply ink_sod, ncp_apply_ink.
     + apply ink_sod, ncp_apply_ink.
     + apply lcp_apply_sod. apply fsm_input_ok.
@@ -215,6 +215,7 @@ Proof.
   destruct f as [c|x|c|c| | | | | | | | | | | | | ]; cbn [handle_frame]; try rewrite Hn; try apply v6k_refl.
   - apply lcp_apply_v6k.
   - destruct x; try rewrite Hn; try apply v6k_refl.
+    + destruct (fs (lcp (ms m))); try apply v6k_refl; apply v6k_emit.
     + apply ncp_apply_v6k.
     + apply ncp_apply_v6k.
     + apply lcp_apply_v6k.
